@@ -1189,7 +1189,10 @@ Definition run_C01_with
    is resolved against the request it is evaluated on to its outcome ([PConst]); the mapper is the
    same for every request (its structure does not depend on the predicates), so a dispatch on
    request e is the dispatch of the declarations resolved on e. *)
-Record renv := mkRenv { e_params : list (text * text); e_xhr : bool }.
+Record renv := mkRenv { e_params : list (text * text); e_xhr : bool;
+                         e_headers : list (text * text);   (* (header name as sent, value), distinct WSGI keys *)
+                         e_orc : oracle;                    (* \w / \d of non-ASCII characters, for header regexes *)
+                         e_method : text }.                 (* REQUEST_METHOD *)
 
 (* request.params.get(k) (WebOb MultiDict / NestedMultiDict over a query string): the LAST value *)
 Definition params_get (ps : list (text * text)) (k : text) : option text :=
@@ -1239,11 +1242,73 @@ Definition param_call_model (reqs : list (text * option text)) (ps : list (text 
 Definition otext_eqb (a b : option text) : bool :=
   match a, b with Some x, Some y => text_eqb x y | None, None => true | _, _ => false end.
 
+(* ---- eighth round: header= predicates.  request.headers (WebOb EnvironHeaders): a header name is
+   looked up under the WSGI key HTTP_ + NAME with '-' replaced by '_' (case-insensitive; Content-Type /
+   Content-Length, which have no HTTP_ prefix, are not modelled) *)
+Definition ascii_upper (c : N) : N := if is_lower c then (c - 32)%N else c.
+Definition hdr_key (n : text) : text := map (fun c => if (c =? 45)%N then 95%N else ascii_upper c) n.
+Fixpoint hdr_get (hs : list (text * text)) (n : text) : option text :=
+  match hs with
+  | [] => None
+  | (k, v) :: r => if text_eqb (hdr_key n) (hdr_key k) then Some v else hdr_get r n
+  end.
+Definition hdr_mem (hs : list (text * text)) (n : text) : bool :=
+  match hdr_get hs n with Some _ => true | None => false end.
+(* compiled.match(value): the regex (a sequence of quantified atoms of the modelled sublanguage)
+   matches a PREFIX of the value, greedy with backtracking as in the route matcher *)
+Definition re_match (O : oracle) (atoms : list hre) (value : text) : bool :=
+  match mi (fun _ => Some []) O (map (Hole []) atoms) value with Some _ => true | None => false end.
+(* HeaderPredicate.__init__, one value: 'Name' -> (Name, None, None); 'Name:regex' -> (Name, compiled, regex)
+   (split at the first colon, nothing is stripped); None = a regex outside the sublanguage *)
+Definition hreq := (text * option (list hre) * option text)%type.
+Definition header_parse (v : text) : option hreq :=
+  match split_first c_colon v with
+  | None => Some (v, None, None)
+  | Some (n, r) => match parse_reg_m r with Some atoms => Some (n, Some atoms, Some r) | None => None end
+  end.
+Fixpoint header_init_model (vals : list text) : option (list hreq) :=
+  match vals with
+  | [] => Some []
+  | v :: r => match header_parse v, header_init_model r with
+              | Some q, Some l => Some (q :: l)
+              | _, _ => None
+              end
+  end.
+(* HeaderPredicate.__call__ (reference): EVERY requirement holds: a bare name is present; a name
+   with a regex is present and the regex matches (a prefix of) its value *)
+Definition header_req_ok (O : oracle) (hs : list (text * text)) (q : hreq) : bool :=
+  match snd (fst q) with
+  | None => hdr_mem hs (fst (fst q))
+  | Some atoms => match hdr_get hs (fst (fst q)) with
+                  | None => false
+                  | Some value => re_match O atoms value
+                  end
+  end.
+Definition header_call_model (O : oracle) (reqs : list hreq) (hs : list (text * text)) : bool :=
+  forallb (header_req_ok O hs) reqs.
+
+(* ---- request_method= (RequestMethodPredicate): __init__ adds HEAD to a value that has GET and no
+   HEAD ("GET implies HEAD"; as_sorted_tuple's ordering is irrelevant to a membership test);
+   __call__ is request.method in self.val *)
+Definition t_GET : text := T "GET".
+Definition t_HEAD : text := T "HEAD".
+Definition mem_text (x : text) (l : list text) : bool := existsb (text_eqb x) l.
+Definition method_init_model (vals : list text) : list text :=
+  if mem_text t_GET vals && negb (mem_text t_HEAD vals) then vals ++ [t_HEAD] else vals.
+Definition method_call_model (val : list text) (method : text) : bool := mem_text method val.
+
 Inductive xpred :=
   | XBase (p : pred)
   | XParam (neg : bool) (vals : list text)
   | XXhr (neg : bool) (b : bool)
-  | XTraverse (tp : text).
+  | XTraverse (tp : text)
+  | XHeader (neg : bool) (vals : list text)
+  | XMethod (neg : bool) (vals : list text).
+Definition header_verdict (hc : oracle -> list hreq -> list (text * text) -> bool) (e : renv) (vals : list text) : bool :=
+  match header_init_model vals with
+  | Some reqs => hc (e_orc e) reqs (e_headers e)
+  | None => false     (* outside the model: such cases are reported Unsupported, see [xdecl_supported] *)
+  end.
 (* declarative meaning *)
 Definition xpred_holds (e : renv) (method : text) (d : matchdict) (x : xpred) : bool :=
   match x with
@@ -1251,6 +1316,8 @@ Definition xpred_holds (e : renv) (method : text) (d : matchdict) (x : xpred) : 
   | XParam n vs => xorb n (forallb (param_req_ok (e_params e)) (map param_parse vs))
   | XXhr n b => xorb n (Bool.eqb (e_xhr e) b)
   | XTraverse _ => true
+  | XHeader n vs => xorb n (header_verdict header_call_model e vs)
+  | XMethod n vs => xorb n (method_call_model (method_init_model vs) (e_method e))
   end.
 Definition xresolve (pc : list (text * option text) -> list (text * text) -> bool) (e : renv) (x : xpred) : pred :=
   match x with
@@ -1258,12 +1325,39 @@ Definition xresolve (pc : list (text * option text) -> list (text * text) -> boo
   | XParam n vs => PConst (xorb n (pc (param_init_model vs) (e_params e)))
   | XXhr n b => PConst (xorb n (Bool.eqb (e_xhr e) b))
   | XTraverse _ => PConst true
+  | XHeader n vs => PConst (xorb n (header_verdict header_call_model e vs))
+  | XMethod n vs => PConst (xorb n (method_call_model (method_init_model vs) (e_method e)))
+  end.
+(* the same with the header predicate's __call__ as a parameter (the regenerated one) *)
+(* XHRPredicate.__call__ (reference): bool(request.is_xhr) is self.val *)
+Definition xhr_call_model (val xhr : bool) : bool := Bool.eqb xhr val.
+(* the __call__ methods of the four predicate classes, as parameters (the regenerated ones) *)
+Record pcalls := mkPcalls {
+  k_param : list (text * option text) -> list (text * text) -> bool;
+  k_header : oracle -> list hreq -> list (text * text) -> bool;
+  k_xhr : bool -> bool -> bool;
+  k_method : list text -> text -> bool }.
+Definition model_pcalls : pcalls := mkPcalls param_call_model header_call_model xhr_call_model method_call_model.
+Definition xresolve_h (K : pcalls) (e : renv) (x : xpred) : pred :=
+  match x with
+  | XHeader n vs => PConst (xorb n (header_verdict (k_header K) e vs))
+  | XXhr n b => PConst (xorb n (k_xhr K b (e_xhr e)))
+  | XMethod n vs => PConst (xorb n (k_method K (method_init_model vs) (e_method e)))
+  | _ => xresolve (k_param K) e x
+  end.
+Definition xpred_supported (x : xpred) : bool :=
+  match x with
+  | XHeader _ vs => match header_init_model vs with Some _ => true | None => false end
+  | _ => true
   end.
 Record xdecl := mkXDecl { x_name : text; x_src : text; x_static : bool; x_preds : list xpred;
                           x_levels : list text; x_inherit : bool }.
 Definition xdecl_resolve (pc : list (text * option text) -> list (text * text) -> bool) (e : renv) (x : xdecl)
   : decl * list text * bool :=
   (mkDecl (x_name x) (x_src x) (x_static x) (map (xresolve pc e) (x_preds x)), x_levels x, x_inherit x).
+Definition xdecl_resolve_h (K : pcalls) (e : renv) (x : xdecl) : decl * list text * bool :=
+  (mkDecl (x_name x) (x_src x) (x_static x) (map (xresolve_h K e) (x_preds x)), x_levels x, x_inherit x).
+Definition xdecl_supported (x : xdecl) : bool := forallb xpred_supported (x_preds x).
 Definition is_traverse (p : xpred) : bool := match p with XTraverse _ => true | _ => false end.
 Definition has_traverse_at (xs : list xdecl) (i : nat) : bool :=
   match nth_error xs i with Some x => existsb is_traverse (x_preds x) | None => false end.
@@ -1300,6 +1394,8 @@ Definition get_xpred (v : val) : option xpred :=
   | VL [VI 3%Z; n; vs] => olet n := get_bool n in olet vs := get_texts vs in Some (XParam n vs)
   | VL [VI 4%Z; n; b] => olet n := get_bool n in olet b := get_bool b in Some (XXhr n b)
   | VL [VI 6%Z; VT tp] => Some (XTraverse tp)
+  | VL [VI 5%Z; n; vs] => olet n := get_bool n in olet vs := get_texts vs in Some (XHeader n vs)
+  | VL [VI 7%Z; n; vs] => olet n := get_bool n in olet vs := get_texts vs in Some (XMethod n vs)
   | _ => olet p := get_pred v in Some (XBase p)
   end.
 Definition get_xdecl (v : val) : option xdecl :=
@@ -1311,16 +1407,18 @@ Definition get_xdecl (v : val) : option xdecl :=
   end.
 Definition get_kv (v : val) : option (text * text) :=
   match v with VL [VT k; VT x] => Some (k, x) | _ => None end.
-Definition get_renv (v : val) : option renv :=
+Definition get_renv (O : oracle) (v : val) : option renv :=
   match v with
-  | VL [ps; x] => olet ps := get_list_of get_kv ps in olet x := get_bool x in Some (mkRenv ps x)
+  | VL [ps; x] => olet ps := get_list_of get_kv ps in olet x := get_bool x in Some (mkRenv ps x [] O [])
+  | VL [ps; x; hs] => olet ps := get_list_of get_kv ps in olet x := get_bool x in
+                      olet hs := get_list_of get_kv hs in Some (mkRenv ps x hs O [])
   | _ => None
   end.
 (* a step of a history; a dispatch may come with its own request data *)
-Definition get_xstep (v : val) : option (hstep * option renv) :=
+Definition get_xstep (O : oracle) (v : val) : option (hstep * option renv) :=
   match v with
   | VL [rawv; VT method; e] =>
-      olet raw := get_opt get_text rawv in olet e := get_renv e in Some (HDispatch raw method, Some e)
+      olet raw := get_opt get_text rawv in olet e := get_renv O e in Some (HDispatch raw method, Some e)
   | _ => olet s := get_hstep v in Some (s, None)
   end.
 
@@ -1358,8 +1456,8 @@ Definition run_C01_x
         olet orc := get_oracle o in
         olet xs := get_list_of get_xdecl ds in
         olet raw := get_opt get_text raw in
-        olet steps := get_list_of get_xstep h in
-        olet e0 := get_renv env in
+        olet steps := get_list_of (get_xstep orc) h in
+        olet e0 := get_renv orc env in
         let ds := xbuild pc nestf prefixf xs e0 in
         let ds_spec := xbuild param_call_model nest_prefix_model prefix_pattern_model xs e0 in
         let '(m, sts) := connect_all_f (cf (parse_pattern_m orc)) empty_mapper 0 ds in
@@ -1384,6 +1482,64 @@ Definition run_C01_x
         Some (VL [model; put_spec (spec_traverse_fix xs (spec_request_m orc ds_spec method raw)); hist;
                   VL (map (fun se => xhist_spec_item xs (spec_parse_m orc) (spec_match_m orc)
                                        (xbuild param_call_model nest_prefix_model prefix_pattern_model xs (env_of (snd se)))
+                                       (fst se)) steps)])
+    | _ => None
+    end).
+
+(* eighth round: the same glue with the header predicate's __call__ as one more parameter; a case
+   with a header regex outside the sublanguage is reported Unsupported (status 2, no specification) *)
+Definition xbuild_h (K : pcalls)
+  (nestf : option text -> option text -> option text) (prefixf : option text -> bool -> text -> text)
+  (xs : list xdecl) (e : renv) : list decl :=
+  map (effective_decl nestf prefixf) (map (xdecl_resolve_h K e) xs).
+
+Definition with_method (e : renv) (method : text) : renv :=
+  mkRenv (e_params e) (e_xhr e) (e_headers e) (e_orc e) method.
+Definition step_env (e0 : renv) (se : hstep * option renv) : renv :=
+  let e := match snd se with Some e => e | None => e0 end in
+  match fst se with HDispatch _ method => with_method e method | _ => e end.
+Definition run_C01_y
+  (K : pcalls)
+  (cf : (text -> res pat) -> mapper -> nat -> decl -> mapper * res unit)
+  (callf : (pat -> text -> option matchdict) -> mapper -> text -> option text -> tracedout)
+  (nestf : option text -> option text -> option text) (prefixf : option text -> bool -> text -> text)
+  (routesf : mapper -> bool -> list route) (hasf : mapper -> bool) (getf : mapper -> text -> option route)
+  (v : val) : val :=
+  ret_or_bad (
+    match v with
+    | VL [o; ds; raw; VT method; VI mode; h; env] =>
+        olet orc := get_oracle o in
+        olet xs := get_list_of get_xdecl ds in
+        olet raw := get_opt get_text raw in
+        olet steps := get_list_of (get_xstep orc) h in
+        olet e0 := get_renv orc env in
+        let e0 := with_method e0 method in
+        if negb (forallb xdecl_supported xs)
+        then Some (VL [VL [VL (map (fun _ => VI 2%Z) xs); VL []; VL []; put_outcome ONone; VL []]; VL []; VL []; VL []])
+        else
+        let ds := xbuild_h K nestf prefixf xs e0 in
+        let ds_spec := xbuild param_call_model nest_prefix_model prefix_pattern_model xs e0 in
+        let '(m, sts) := connect_all_f (cf (parse_pattern_m orc)) empty_mapper 0 ds in
+        let router := negb (Z.eqb mode 0) in
+        let cfgerr := router && (negb (forallb is_ok sts) || has_dup (map d_name ds)) in
+        let model :=
+          if cfgerr
+          then VL [VL (map put_status sts); VL []; VL []; put_outcome OConfigError; VL []]
+          else
+            let '(out, tr) := callf (match_pat_m orc) m method raw in
+            VL [VL (map put_status sts); put_ids (routelist m); put_ids (statics m); put_outcome (traverse_fix xs out);
+                if router then VL [] else put_trace tr] in
+        let hist :=
+          if cfgerr then VL []
+          else if matcher_pure_ok
+               then VL (map (fun se =>
+                         let m_e := fst (connect_all_f (cf (parse_pattern_m orc)) empty_mapper 0
+                                           (xbuild_h K nestf prefixf xs (step_env e0 se))) in
+                         xhist_item xs (callf (match_pat_m orc)) routesf hasf getf m_e (fst se)) steps)
+               else VL [VT (T "drift")] in
+        Some (VL [model; put_spec (spec_traverse_fix xs (spec_request_m orc ds_spec method raw)); hist;
+                  VL (map (fun se => xhist_spec_item xs (spec_parse_m orc) (spec_match_m orc)
+                                       (xbuild param_call_model nest_prefix_model prefix_pattern_model xs (step_env e0 se))
                                        (fst se)) steps)])
     | _ => None
     end).
